@@ -154,3 +154,28 @@ Fixpoint C10_window_ok (tol : Z) (ws : list (Z * Z)) : bool :=
       | (_, w2) :: rest2 => (0 <=? (w2 - wi) + threshold + tol) && window_from wi tol 0 rest2
       end && C10_window_ok tol rest
   end.
+
+(* C10_hold_ok: the effect of two WHOLE write() calls on the flood counters and on the wire,
+   observed from outside.  At clock reading t0 (the origin: all times below are relative to
+   it) the harness sets badness = bad, lastsent = t0 and submits line 1 (c1 bytes); when the
+   server end has it (measured arrival m1, at or after the true write time) the harness
+   reads the counters (b1, lastsent = lo1) and its clock (r1), then submits line 2 (c2
+   bytes): arrival m2, counters (b2, lo2).
+   - the counters after a write are those rateLimit left: nothing in write (in particular
+     not the sleep) touches them.  Line 1: elapsed in [0, lo1] (the first reading of
+     rateLimit lies between t0 and the second one, which is lo1).  Line 2: its first
+     reading lies in [r1, lo2], so elapsed in [r1 - lo1, lo2 - lo1];
+   - a line whose new penalty exceeds 10 s reaches the wire no earlier than lastsent + its
+     charge (the hold is served), judged on the arrival stamp (late, never early);
+   - anchored window bound (FloodProofs.anchored_bound): penalty at t0 plus the charges sent
+     since never exceed the time since t0 by more than 10 s. *)
+Definition C10_hold_ok (c1 bad c2 lo1 b1 m1 r1 b2 lo2 m2 : Z) : bool :=
+  let ret1 := if b1 >? threshold then linetime c1 else 0 in
+  let ret2 := if b2 >? threshold then linetime c2 else 0 in
+  C10_ok c1 bad 0 lo1 ret1 b1 lo1
+  && (lo1 + ret1 <=? m1)
+  && (lo1 <=? r1)
+  && C10_ok c2 b1 (r1 - lo1) (lo2 - r1) ret2 b2 (lo2 - r1)
+  && (lo2 + ret2 <=? m2)
+  && (bad + linetime c1 <=? m1 + threshold)
+  && (bad + linetime c1 + linetime c2 <=? m2 + threshold).
